@@ -582,6 +582,26 @@ func diffState(want, got mstate) string {
 // libraryReads checks that the library's own reader gives exactly the
 // content the independent walk sees.
 func libraryReads(path string, data []byte, f *rt.V1File) string {
+	// The library reports stack-shaped names (names containing a newline) in
+	// expanded form; that expansion is property C06's subject.  Here names
+	// are compared through it, and a file in which the expansion is not
+	// injective on the stored names is not compared (random bytes can form
+	// such names).
+	raw := f.Counts()
+	want := map[string]uint64{}
+	for k, v := range raw {
+		want[counter.DecodeStack(k)] = v
+	}
+	if len(want) != len(raw) {
+		return ""
+	}
+	for k := range raw {
+		if d := counter.DecodeStack(k); d != k {
+			if _, clash := raw[d]; clash {
+				return ""
+			}
+		}
+	}
 	pf, err := counter.Parse(path, data)
 	if err != nil {
 		return "Parse: " + err.Error()
@@ -594,12 +614,11 @@ func libraryReads(path string, data []byte, f *rt.V1File) string {
 			return fmt.Sprintf("Parse: meta %q = %q, independent reader %q", k, pf.Meta[k], v)
 		}
 	}
-	want := f.Counts()
 	if len(pf.Count) != len(want) {
 		return fmt.Sprintf("Parse: %d counters, independent reader %d", len(pf.Count), len(want))
 	}
 	for k, v := range want {
-		if got, ok := pf.Count[counter.DecodeStack(k)]; !ok || got != v {
+		if got, ok := pf.Count[k]; !ok || got != v {
 			return fmt.Sprintf("Parse: counter %.40q = %d (present %v), independent reader %d", k, got, ok, v)
 		}
 	}
